@@ -554,7 +554,20 @@ def check_plot_diagrams(project: Project, rep):
                 rep.refuted("PL-LIM", fi, ev["node"], f"{tag}: the ∞-line sits at y_down + {k:g}·(y_up−y_down), outside the "
                                                       f"y-range", construct=f"{qual}: inf line ({tag})")
             else:
-                rep.unmodelled("PL-LIM", fi, ev["node"], f"{tag}: ∞-line ordinate is not an affine position in the y-range")
+                # not a fixed fraction of the y-range: is it inside the range at all, for every diagram?
+                inside = sym.ITE(sym.Cmp("<", ylo, yhi), sym.And(sym.Cmp("<", ylo, e), sym.Cmp("<", e, yhi)), sym.TRUE)
+                ok_, w_ = (None, "not evaluable") if (unmodelled_in(e) or unmodelled_in(ylo) or unmodelled_in(yhi)) else \
+                    symeval.equivalent(inside, sym.TRUE, trials=80, nrows=3)
+                if ok_ is True:
+                    rep.discharged("PL-LIM", fi, ev["node"], f"{tag}: the ∞-line lies strictly between the y-limits (evaluated; its "
+                                                             f"position is not a fixed fraction of the range)")
+                elif ok_ is False and I.clean_before(ev):
+                    rep.refuted("PL-LIM", fi, ev["node"],
+                                f"{tag}: the ∞-line is drawn at {sym.show(e)[:90]}, which is not between the y-limits "
+                                f"[{sym.show(ylo)[:50]}, {sym.show(yhi)[:50]}] for every diagram: infinite deaths land outside the "
+                                f"axes; witness {w_}"[:600], construct=f"{qual}: inf line ({tag})")
+                else:
+                    rep.unmodelled("PL-LIM", fi, ev["node"], f"{tag}: ∞-line ordinate is not an affine position in the y-range")
         else:
             rep.refuted("PL-LIM", fi, fi.node, f"{tag}: no horizontal ∞-line is drawn when infinite deaths are present",
                         construct=f"{qual}: inf line missing ({tag})")
